@@ -338,3 +338,79 @@ def variable_token_reach(s: str, which: int) -> bool:
     d, name = ('mysql', 'mindsdb')[which % 2], ('VARIABLE', 'SYSTEM_VARIABLE')[which // 2]
     t = lex_action(d, name, s)
     return t.value == _var_name(s, 1 + which // 2)
+
+
+# ---- joining of dotted paths: identifier DOT (identifier | integer | dquote_string) ---------------------------------
+def _dot_action(dialect, tail):
+    return find_production(PAR[dialect], 'identifier', ['identifier', 'DOT', tail])
+
+
+def _dot_join(d, tail_symbol, tail_value):
+    act = _dot_action(d, tail_symbol)
+    if act is None:
+        return None
+    head = Identifier(parts=['h1', 'h2'])
+    node = apply_action(_parsers[d], act, [head, '.', tail_value])
+    return node.parts
+
+
+def dot_dquote(s: str, which: int) -> bool:
+    """
+    pre: len(s) <= N
+    pre: 0 <= which < 2
+    pre: len(s) >= 3
+    pre: read_quoted_plain(s, '"') is not None
+    pre: (chr(92) not in s)
+    post: _
+    """
+    # h1.h2."text": the quoted text is ONE further part, whatever it contains (dots, back-quotes, spaces)
+    d = ('mysql', 'mindsdb')[which]
+    if _dot_action(d, 'dquote_string') is None:
+        return True
+    t = lex_action(d, 'DQUOTE_STRING', s)
+    val = PAR[d].dquote_string(_parsers[d], [t.value])
+    return _dot_join(d, 'dquote_string', val) == ['h1', 'h2', s[1:len(s) - 1]]
+
+
+def dot_identifier(s: str, which: int) -> bool:
+    """
+    pre: len(s) <= N
+    pre: 0 <= which < 3
+    pre: ID_RE.fullmatch(s) is not None or read_backquoted(s) is not None
+    post: _
+    """
+    # h1.h2.name: the ID token is one further part (back-quotes removed once, nothing else split)
+    d = ('sqlite', 'mysql', 'mindsdb')[which]
+    if _dot_action(d, 'identifier') is None:
+        return True
+    t = lex_action(d, 'ID', s)
+    tail = apply_action(_parsers[d], _identifier_action(d, 'id'), [t.value])
+    want = [s] if s[0] != '`' else [read_backquoted(s)]
+    return _dot_join(d, 'identifier', tail) == ['h1', 'h2'] + want
+
+
+def dot_integer(n: int, which: int) -> bool:
+    """
+    pre: 0 <= n < 100000
+    pre: 0 <= which < 3
+    post: _
+    """
+    d = ('sqlite', 'mysql', 'mindsdb')[which]
+    if _dot_action(d, 'integer') is None:
+        return True
+    return _dot_join(d, 'integer', n) == ['h1', 'h2', str(n)]
+
+
+def dot_reach(s: str, which: int) -> bool:
+    """
+    pre: len(s) <= N
+    pre: 0 <= which < 2
+    pre: len(s) >= 3
+    pre: read_quoted_plain(s, '"') is not None
+    pre: (chr(92) not in s)
+    post: False
+    """
+    d = ('mysql', 'mindsdb')[which]
+    t = lex_action(d, 'DQUOTE_STRING', s)
+    val = PAR[d].dquote_string(_parsers[d], [t.value])
+    return _dot_join(d, 'dquote_string', val) == ['h1', 'h2', s[1:len(s) - 1]]
